@@ -191,7 +191,7 @@ typedef enum
 #define VBI_MAX_BUFFER_COUNT           32
 #define VBI_MIN_STRICT                 -1
 #define VBI_MAX_STRICT                  2
-#define VBI_GET_SERVICE_P(PREQ,STRICT)  ((PREQ)->services + (signed)(STRICT) - VBI_MIN_STRICT)
+#define VBI_GET_SERVICE_P(PREQ,STRICT)  ((PREQ)->services + ((signed)(STRICT) - VBI_MIN_STRICT))
 #define VBI_RAW_SERVICES(SRV)           (((SRV) & (VBI_SLICED_VBI_625 | VBI_SLICED_VBI_525)) != 0)
 
 /* this struct holds client-specific state and parameters */
